@@ -96,7 +96,9 @@ func VerifC03_HookView() {
 	// (and a second, namespaced, child resource)
 	scope := verifC03Pick("scope", 3)
 	finalizing := false
-	if rt.Tier() > 0 && scope == 0 {
+	if scope == 0 {
+		// (also in the quick tier: a parent being finalized still claims, but never
+		// releases - a seeded change hid behind this dimension)
 		finalizing = rt.Bool("finalizing")
 	}
 
@@ -128,7 +130,11 @@ func VerifC03_HookView() {
 	}
 
 	// objects of the first child resource
-	n1 := 1 + verifC03Pick("objects", 2+rt.Tier())
+	maxObjs := 2 + rt.Tier()
+	if scope == 1 {
+		maxObjs = 2 // symbolic namespaces: every pair of objects forks on namespace equality
+	}
+	n1 := 1 + verifC03Pick("objects", maxObjs)
 	var objs []*verifC03Obj
 	var cache1, cache2 []*unstructured.Unstructured
 	for i := 0; i < n1; i++ {
